@@ -18,9 +18,20 @@
 #define ROWS(k) (0 <= k && k <= n)
 /* the current supernode of the L-solve / U-solve loop body */
 #define CUR (0 <= ksupno && ksupno <= NS && fsupc == XS(ksupno) && istart == RB(ksupno) && nsupr == NSUPR(ksupno) && nsupc == NSUPC(ksupno))
-/* write footprints (per column c of B): rows [lo, NN) resp. [0, hi) */
-#define BROWS_FROM(c, lo) __CPROVER_object_whole(in_Bval)
-#define BROWS_BELOW(c, hi) __CPROVER_object_whole(in_Bval)
+/* write footprints, pointwise at the ghost cell (row g_r, column g_c) of B: "the cell has the bit pattern it had when the loop was entered".
+ * Bit patterns, not values: the cell may hold a NaN produced by the arithmetic, and NaN != NaN. */
+#define BITS_d unsigned long long
+#define BITS_s unsigned int
+#define UNCH1(lv) (*(BITS_@r@ *)&(lv) == __CPROVER_loop_entry(*(BITS_@r@ *)&(lv)))
+#if @cplx@
+#define UNCHANGED(lv) (UNCH1((lv).r) && UNCH1((lv).i))
+#else
+#define UNCHANGED(lv) UNCH1(lv)
+#endif
+#define GCELL in_Bval[g_r + g_c * LDB]
+/* rows [0, lo) and the padding rows [n, ldb) of every column keep their bits / rows [hi, ldb) keep their bits */
+#define ROWS_BELOW_KEPT(lo) ((g_r < LDB && (g_r < (lo) || g_r >= NN)) ==> UNCHANGED(GCELL))
+#define ROWS_FROM_KEPT(hi) ((g_r < LDB && g_r >= (hi)) ==> UNCHANGED(GCELL))
 /* ghost bookkeeping of the kernel stubs (solve_stubs.c) */
 #define GHOSTS g_lastL, g_lastU, g_lastG, g_trsmL, g_trsmU, g_gemm, g_trsv
 #define CNT(done, s) (((done) && NSUPC(s) > 1) ? 1 : 0)
